@@ -25,6 +25,7 @@ type Query {
   first: Artist
   title: String
   top: Named
+  ghost: String
 }
 interface Named { name: String }
 type Artist implements Named { name: String songs: [Song] rating: Int origin: String }
@@ -98,20 +99,105 @@ var c12Reqs = []c12Req{
 	{`{ artists { songs { name } } title }`, nil, "fields2"},
 	{`{ artist(name: "zz") { name } }`, nil, "null"},
 	{`{ top { name } }`, nil, "iface"},
+	{`{ ghost }`, nil, "unbacked-field"},
+	{`{ title ghost }`, nil, "unbacked-field2"},
+}
+
+// requests for the interface-strategy root (argument formation goes through formArgs there)
+var c12IfaceReqs = []c12Req{
+	{`{ artists { name rating songs { name duration } } }`, nil, "i.fields"},
+	{`{ artist(name: "a2") { name origin } }`, nil, "i.arg"},
+	{`{ artist { name } }`, nil, "i.required-missing"},
+	{`query($n: String!){ artist(name: $n) { name } }`, map[string]interface{}{"n": "a1"}, "i.vars"},
+	{`query($n: String){ artist(name: $n) { name } }`, nil, "i.required-null-var"},
+	{`{ artist(name: null) { name } }`, nil, "i.required-null"},
+	{`{ first { name origin rating } title }`, nil, "i.method"},
+	{`{ artists { ...F } } fragment F on Artist { name origin }`, nil, "i.fragment"},
+	{`{ artist(name: "a1", zz: 1) { name } }`, nil, "i.unknown-arg"},
+	{`{ ghost title }`, nil, "i.unbacked-field"},
+}
+
+type c12INode struct {
+	q *C12Query
+	a *Artist
+	s *Song
+}
+
+func (n *c12INode) Resolve(f *ggql.Field, args map[string]interface{}) (interface{}, error) {
+	switch {
+	case n.a != nil:
+		switch f.Name {
+		case "name":
+			return n.a.Name, nil
+		case "rating":
+			return n.a.Rating, nil
+		case "origin":
+			return n.a.orig, nil
+		case "songs":
+			var l []interface{}
+			for _, s := range n.a.Songs {
+				l = append(l, &c12INode{s: s})
+			}
+			return l, nil
+		}
+	case n.s != nil:
+		switch f.Name {
+		case "name":
+			return n.s.Name, nil
+		case "duration":
+			return n.s.Duration, nil
+		}
+	default:
+		switch f.Name {
+		case "query":
+			return n, nil
+		case "artist":
+			name, _ := args["name"].(string)
+			if a := n.q.Artist(name); a != nil {
+				return &c12INode{a: a}, nil
+			}
+			return nil, nil
+		case "artists":
+			var l []interface{}
+			for _, a := range n.q.Artists {
+				l = append(l, &c12INode{a: a})
+			}
+			return l, nil
+		case "first":
+			return &c12INode{a: n.q.Artists[0]}, nil
+		case "title":
+			return n.q.Title, nil
+		}
+	}
+	return nil, nil
+}
+
+func c12IfaceRoot() *ggql.Root {
+	a1 := &Artist{Name: "a1", Rating: 3, orig: "x", Songs: []*Song{{"s1", 10}, {"s2", 20}}}
+	a2 := &Artist{Name: "a2", Rating: 5, orig: "y", Songs: []*Song{{"s3", 30}}}
+	root := ggql.NewRoot(&c12INode{q: &C12Query{Artists: []*Artist{a1, a2}, Title: "t"}})
+	if err := root.ParseString(c12Schema); err != nil {
+		panic(err)
+	}
+	return root
 }
 
 
 func c12Iter(rng *Rng, n int) (mismatch, panics, ifaceMismatch int, detail string, tags []string) {
-	root := c12Root()
+	mk, pool := c12Root, c12Reqs
+	if rng.Chance(30) {
+		mk, pool = c12IfaceRoot, c12IfaceReqs
+	}
+	root := mk()
 	reqs := make([]c12Req, n)
 	for i := range reqs {
-		reqs[i] = Pick(rng, c12Reqs)
+		reqs[i] = Pick(rng, pool)
 		tags = append(tags, reqs[i].tag)
 	}
 	// solo baselines: each on its own cold root
 	want := make([]string, n)
 	for i, r := range reqs {
-		want[i] = canon(safeResolve(c12Root(), r.doc, "", r.vars))
+		want[i] = canon(safeResolve(mk(), r.doc, "", r.vars))
 	}
 	got := make([]string, n)
 	var wg sync.WaitGroup
@@ -125,7 +211,18 @@ func c12Iter(rng *Rng, n int) (mismatch, panics, ifaceMismatch int, detail strin
 		}(i)
 	}
 	close(start)
-	wg.Wait()
+	// a request that never returns (a mutex left locked, a lock-order cycle) must not wedge the harness
+	finished := make(chan struct{})
+	go func() { wg.Wait(); close(finished) }()
+	select {
+	case <-finished:
+	case <-time.After(8 * time.Second):
+		for i := range got {
+			if got[i] == "" {
+				got[i] = `{"deadlock":"request did not return within 8 s"}`
+			}
+		}
+	}
 	for i := range reqs {
 		if got[i] != want[i] {
 			if reqs[i].tag == "iface" {
